@@ -5,13 +5,17 @@
    specification vocabulary: Rec/RecordSpec.v.
 
    The primitives (block cipher, MAC, AEAD) are a parameter [P : prims]; what the theorems need of them
-   is the premise [prims_ok P] (block cipher: length-preserving permutation on blocks; MAC: fixed tag
-   length, byte output; AEAD: open undoes seal) and, for the integrity theorems, the idealisation
-   [no_forgery] (ideal authenticity of HMAC-SM3 / SM4-GCM).  They are premises, never axioms. *)
+   is the premise [prims_ok P] (block cipher: length-preserving permutation on blocks of bytes; MAC: fixed
+   tag length, byte output; AEAD: open undoes seal) and, for the integrity theorems, the idealisation
+   [no_forgery] (ideal authenticity of HMAC-SM3 / SM4-GCM).  They are premises, never axioms.
+   Section 5 discharges [prims_ok] for what gmtls really runs (SM4, HMAC-SM3, GCM over SM4: the
+   specifications of the SM4 / SM3 families and Rec/GcmRef.v), so that the *_sm4 theorems have no premise
+   on the primitives at all; only [no_forgery] remains, for the integrity theorem. *)
 From Coq Require Import List NArith Arith Bool Lia.
 From GmsmVerif Require Import Lib.Outcome Rec.RecordSpec Rec.RecordModel Rec.RecordProofs Rec.RecordRoundtrip
-  Rec.RecordIntegrity Rec.RecordFragment Rec.RecordExtras.
+  Rec.RecordIntegrity Rec.RecordFragment Rec.RecordExtras Rec.RecordSM4.
 Import ListNotations.
+Local Open Scope nat_scope.
 
 (* ======== 1. the concrete helpers, for all inputs ================================================== *)
 
@@ -124,7 +128,7 @@ Print Assumptions C07_mac_input_layout.
 Theorem C07_decrypt_encrypt_record :
   forall P, prims_ok P -> forall w r s h3 eiv frag,
     same_keys w r -> hc_seq w = be64 s -> (s < 2 ^ 64 - 1)%N -> hc_version r = VersionGMSSL ->
-    length h3 = 3 -> length eiv = explicit_len P (hc_cipher w) -> bytes_ok frag ->
+    length h3 = 3 -> length eiv = explicit_len P (hc_cipher w) -> bytes_ok eiv -> bytes_ok frag ->
     (N.of_nat (length frag) + N.of_nat (p_macSize P) < 2 ^ 30)%N ->
     exists w' rec_ r',
       encrypt P w (h3 ++ len_bytes (length frag) ++ eiv ++ frag) (length eiv) = Ok (w', rec_) /\
@@ -339,6 +343,65 @@ Example C07_fragmentation_examples :
   ex_run ex_gcm None ex_items_gcm [Deliver 0; Deliver 1] = Some ([10; 20; 30; 40; 50]%N, be64 7, true, true).
 Proof.
   split; [vm_compute; reflexivity|]. split; [vm_compute; reflexivity|]. split; [vm_compute; reflexivity|].
-  split; [repeat split; discriminate|]. split; [repeat split; discriminate|].
+  assert (Hr : bytes_ok (map N.of_nat (seq 0 200))).
+  { unfold bytes_ok. apply Forall_forall. intros x Hx. apply in_map_iff in Hx. destruct Hx as [y [<- Hy]].
+    apply in_seq in Hy. lia. }
+  split; [split; [reflexivity|]; split; [reflexivity|]; split; [exists 5%N; split; [reflexivity|reflexivity]|];
+          split; [discriminate|exact Hr]|].
+  split; [split; [reflexivity|]; split; [reflexivity|]; split; [exists 5%N; split; [reflexivity|reflexivity]|];
+          split; [discriminate|exact Hr]|].
   split; vm_compute; reflexivity.
 Qed.
+
+(* ======== 5. the same for the primitives gmtls really runs ========================================= *)
+
+(* SM4 (any list of round keys: the Feistel structure inverts for every key schedule, C05), HMAC-SM3
+   (32 bytes of output), GCM over SM4 (SP 800-38D, 12-byte IVs): the premises on the primitives hold.
+   [sm4_prims] is the instance the extracted runner is run with. *)
+Theorem C07_sm4_prims_ok : prims_ok sm4_prims.
+Proof. exact sm4_prims_ok. Qed.
+Print Assumptions C07_sm4_prims_ok.
+
+Theorem C07_decrypt_encrypt_record_sm4 :
+  forall w r s h3 eiv frag,
+    same_keys w r -> hc_seq w = be64 s -> (s < 2 ^ 64 - 1)%N -> hc_version r = VersionGMSSL ->
+    length h3 = 3 -> length eiv = explicit_len sm4_prims (hc_cipher w) -> bytes_ok eiv -> bytes_ok frag ->
+    (N.of_nat (length frag) < 2 ^ 29)%N ->
+    exists w' rec_ r',
+      encrypt sm4_prims w (h3 ++ len_bytes (length frag) ++ eiv ++ frag) (length eiv) = Ok (w', rec_) /\
+      decrypt sm4_prims r rec_ = Ok (r', Some frag) /\
+      hc_seq w' = be64 (s + 1) /\ hc_seq r' = be64 (s + 1) /\ same_keys w' r'.
+Proof.
+  intros w r s h3 eiv frag Hk Hs Hlt Hv Hh He Heb Hfb Hsz.
+  destruct (decrypt_encrypt_record_ok sm4_prims sm4_prims_ok w r s h3 eiv frag Hk Hs Hlt Hv Hh He Heb Hfb)
+    as [w' [rec_ [r' [H1 [H2 [H3 [H4 [H5 _]]]]]]]].
+  - cbn [sm4_prims p_macSize]. change (2 ^ 29)%N with 536870912%N in Hsz. change (2 ^ 30)%N with 1073741824%N. lia.
+  - exists w', rec_, r'. auto.
+Qed.
+Print Assumptions C07_decrypt_encrypt_record_sm4.
+
+Theorem C07_fragmentation_in_order_sm4 :
+  forall fuelW cw writes cw' recs s0 hcR rounds fuel,
+    sender_ok cw -> hc_seq (o_hc cw) = be64 s0 -> (s0 + N.of_nat (length recs) < 2 ^ 64)%N ->
+    write_calls sm4_prims fuelW cw writes = Ok (cw', recs, false) -> bytes_ok (concat writes) ->
+    same_keys (o_hc cw) hcR -> hc_version hcR = VersionGMSSL -> hc_err hcR = false ->
+    length recs < rounds ->
+    exists c' frs,
+      recv_all sm4_prims rounds (S fuel) (receiver0 hcR VersionGMSSL (concat recs)) = Ok (concat writes, c') /\
+      hc_err (i_hc c') = true /\
+      concat frs = concat writes /\ Forall (fun f => length f <= maxPlaintext) frs /\ length frs = length recs.
+Proof. exact (fragmentation_in_order_lemma sm4_prims sm4_prims_ok sm4_expansion_ok). Qed.
+Print Assumptions C07_fragmentation_in_order_sm4.
+
+(* the only premise left is the idealisation: no forged HMAC-SM3 tag / SM4-GCM ciphertext is accepted *)
+Theorem C07_prefix_integrity_sm4 :
+  forall ver s0 items hc vers genuine other foreign script rounds fuel out c',
+    (s0 + N.of_nat (length items) < 2 ^ 64)%N ->
+    Forall (fun it : item => length (snd it) <= maxPlaintext) items ->
+    hc_err hc = false -> hc_seq hc = be64 s0 -> protected hc ->
+    recv_all sm4_prims rounds fuel (receiver0 hc vers (apply_script genuine other foreign script)) = Ok (out, c') ->
+    no_forgery sm4_prims (sender_log (is_aead hc) ver s0 items) c' ->
+    exists k, k <= length items /\ out = app_bytes (firstn k items) /\ is_prefix out (app_bytes items) /\
+              hc_seq (i_hc c') = be64 (s0 + N.of_nat k) /\ hc_err (i_hc c') = true.
+Proof. intros. eapply prefix_integrity_wire; eassumption. Qed.
+Print Assumptions C07_prefix_integrity_sm4.
